@@ -505,7 +505,7 @@ def cmdline_list_name(fi, handed='args'):
     srcs = {d.id for d in defs if isinstance(d, ast.Name)}
     if len(srcs) == 1:
         src = srcs.pop()
-        if grows(src) and all(any(is_name(x, src) for x in ast.walk(d)) for d in defs):
+        if grows(src) and all(any(is_name(x, src) or is_name(x, handed) for x in ast.walk(d)) for d in defs):
             return src
     return handed
 
